@@ -13,7 +13,8 @@ From Coq.Strings Require Import Byte.
 Require Import GV.Base.Res GV.Base.Byt GV.Base.Ints GV.Model.Leb GV.Model.Prim
                GV.Spec.LebSpec GV.Spec.FormSpec GV.Model.Attr GV.Spec.Forest GV.Model.AbbrevRd
                GV.Model.DieRd GV.Proofs.AttrProofs GV.Proofs.AbbrevRdProofs GV.Proofs.DieRdProofs GV.Proofs.NavProofs
-               GV.Spec.ForestSel GV.Model.TreeWalk GV.Proofs.TreeWalkProofs GV.Proofs.CursorWalkProofs.
+               GV.Spec.ForestSel GV.Model.TreeWalk GV.Proofs.TreeWalkProofs GV.Proofs.CursorWalkProofs
+               GV.Proofs.SibBadProofs.
 Import ListNotations.
 Local Open Scope N_scope.
 
@@ -370,6 +371,79 @@ Example cursor_walk_ex :
   sel_list ex_codes (fun _ => Some 3%nat) 0 (header_len ex_header) 1 ex_forest =
     preorder ex_codes (header_len ex_header) 0 ex_forest.
 Proof. split; vm_compute; reflexivity. Qed.
+
+(* (6d) malformed DW_AT_sibling values, for EVERY reader state and EVERY entry (no well-formedness):
+        the attribute is consulted only by the fast path DieRd.sibling_jump at the top of the loops of
+        next_sibling and EntriesTree::next. It is IGNORED (the reader is left untouched, so the
+        iteration is the scanning one: tree_loop_ignored / sibling_loop_ignored) when the entry has no
+        children, the attribute is missing, its normalised value is not a unit reference (DW_FORM_data*,
+        udata, ref_addr, sec_offset, ...), the reference is backward or the entry's own offset, it points
+        before the reader (into the entry's own bytes), or beyond the end of the unit. EVERY other value
+        — a unit reference after the entry, at or after the reader, up to and including the end of the
+        unit — is BELIEVED: the reader moves there with the entry's depth (a forward offset into the
+        middle of the subtree, into the middle of an entry, past the true sibling, or exactly the end of
+        the unit changes what the traversal reports; only the value enc_forest writes is correct). The two
+        classes are complementary. Lifting the ignored class to whole traversals of an encoder that
+        writes wrong values is not done (correspondence: c02.nav). *)
+Theorem bad_sibling_ignored : forall dbg r cur,
+  nlen (r_in r) <= r_end r ->
+  (SibBadProofs.sib_ignored r cur -> sibling_jump dbg r cur = Ok r) /\
+  (forall o, d_children cur = true -> die_attr_value cur DW_AT_sibling = Some (VUnitRef o) -> d_offset cur < o ->
+     r_end r - nlen (r_in r) <= o <= r_end r ->
+     sibling_jump dbg r cur =
+     Ok (mkRaw (skipn (N.to_nat (o - (r_end r - nlen (r_in r)))) (r_in r)) (r_end r) (d_depth cur))) /\
+  (SibBadProofs.sib_ignored r cur \/
+   exists o, d_children cur = true /\ die_attr_value cur DW_AT_sibling = Some (VUnitRef o) /\ d_offset cur < o /\
+             r_end r - nlen (r_in r) <= o <= r_end r).
+Proof.
+  intros dbg r cur Hle. split; [exact (SibBadProofs.bad_sibling_ignored dbg r cur Hle)|].
+  split; [intros o; exact (SibBadProofs.sibling_believed dbg r cur o Hle)|exact (SibBadProofs.sibling_classes r cur Hle)].
+Qed.
+
+Theorem bad_sibling_loops : forall k dbg e tbl,
+  (forall depth t, nlen (r_in (tr_raw t)) <= r_end (tr_raw t) -> SibBadProofs.sib_ignored (tr_raw t) (tr_entry t) ->
+     tree_next_loop (S k) dbg e tbl depth t =
+     if raw_is_empty (tr_raw t) then Ok (TOk false (mkTree (tr_root t) (tr_raw t) (set_null (tr_entry t)))) else
+     match read_entry dbg e tbl (tr_raw t) with
+     | Ok (ok, d, r2) =>
+         if (d_depth d =? depth)%Z then Ok (TOk ok (mkTree (tr_root t) r2 d))
+         else tree_next_loop k dbg e tbl depth (mkTree (tr_root t) r2 d)
+     | Err x => tree_fail dbg (mkTree (tr_root t) (tr_raw t) (tr_entry t)) x
+     | Panic => Panic
+     | OutOfFuel => OutOfFuel
+     end) /\
+  (forall T c, nlen (r_in (c_raw c)) <= r_end (c_raw c) -> SibBadProofs.sib_ignored (c_raw c) (c_cur c) ->
+     sibling_loop (S k) dbg e tbl T c =
+     let* s := next_entry dbg e tbl c in
+     match s with
+     | SErr x c' => Ok (SErr x c')
+     | SOk false c' => Ok (SOk None c')
+     | SOk true c' =>
+         if (d_depth (c_cur c') =? T)%Z then Ok (SOk (current c') c') else sibling_loop k dbg e tbl T c'
+     end).
+Proof.
+  intros k dbg e tbl. split.
+  - intros depth t. exact (SibBadProofs.tree_loop_ignored k dbg e tbl depth t).
+  - intros T c. exact (SibBadProofs.sibling_loop_ignored k dbg e tbl T c).
+Qed.
+
+(* an entry at offset 20 with children, the reader at offset 24 of a unit ending at 40: a DW_FORM_ref4
+   sibling value 20 (self), 22 (inside the entry), 41 (out of range) and a DW_FORM_data4 value are
+   ignored; 30 is believed *)
+Example bad_sibling_ex :
+  let r := mkRaw (repeat x00 16) 40 3 in
+  let ent v := mkDie 20 2 17 true [(mkSpec 1 19 0, v)] in
+  SibBadProofs.sib_ignored r (ent (VUnitRef 20)) /\ SibBadProofs.sib_ignored r (ent (VUnitRef 22)) /\
+  SibBadProofs.sib_ignored r (ent (VUnitRef 41)) /\ SibBadProofs.sib_ignored r (ent (VData4 30)) /\
+  sibling_jump true r (ent (VUnitRef 30)) = Ok (mkRaw (repeat x00 10) 40 2).
+Proof.
+  cbv zeta. unfold SibBadProofs.sib_ignored.
+  split; [right; vm_compute; left; discriminate|].
+  split; [right; vm_compute; right; left; reflexivity|].
+  split; [right; vm_compute; right; right; reflexivity|].
+  split; [right; vm_compute; exact I|].
+  vm_compute. reflexivity.
+Qed.
 
 (* ------------------------------------------------------------------ *)
 (* (7) no step panics or exhausts the model's fuel, on ANY input, in both build modes (feeds C01).
